@@ -8,7 +8,7 @@ Transcribed from
   `frappy/params.py`       Parameter.for_export (323-329: exported properties + `readonly` (+ serialised `constant`)),
                            Command.for_export (547-548)
   `frappy/properties.py`   exportProperties (174-187) — the property lists are data of the node (`props`)
-  `frappy/protocol/dispatcher.py` handle_activate 261-280 (which specifier is refused before anything is subscribed)
+  `frappy/protocol/dispatcher.py` handle_activate 275-294 (which specifier is refused before anything is subscribed)
 
 `describe` reads the SAME `Node` value that `Dispatch` steps over, as the code's one `Parameter` object (one `datatype`,
 one `readonly`, one `export`) serves both paths.
@@ -69,9 +69,9 @@ def activateRefusal (pre : Predef) (n : Node J V) : Spec → Option ErrCls
     match findModule n m with
     | some mod =>
       if mod.exported then
-        match findWire pre mod a with
+        match findParam pre mod a with
         | some _ => none
-        | none => some .noSuchParameter             -- `accessiblename2attr.get(name, True)` is not an accessible
+        | none => some .noSuchParameter             -- unknown name or a command: nothing to subscribe to
       else some .noSuchModule
     | none => some .noSuchModule
 
